@@ -1255,17 +1255,20 @@ class Stack(list):
 
         :return bool:
         """
-        # TODO: Implement
-        # if sequence == 0xffffffff:
-        #     return False
-        # locktime = decode_num(self[-1])
-        # if locktime < 0:
-        #     return False
-        # if locktime != 0xffffffff:
-        #     if version < 2:
-        #         return False
-        # return True
-        return NotImplementedError
+        locktime = decode_num(self[-1])
+        if locktime < 0:
+            return False
+        if locktime & SEQUENCE_LOCKTIME_DISABLE_FLAG:
+            return True
+        if version < 2:
+            return False
+        if sequence & SEQUENCE_LOCKTIME_DISABLE_FLAG:
+            return False
+        if (locktime & SEQUENCE_LOCKTIME_TYPE_FLAG) != (sequence & SEQUENCE_LOCKTIME_TYPE_FLAG):
+            return False
+        if (locktime & SEQUENCE_LOCKTIME_MASK) > (sequence & SEQUENCE_LOCKTIME_MASK):
+            return False
+        return True
 
     def op_nop4(self):
         return True
